@@ -5,6 +5,7 @@ import fcntl
 import hashlib
 import json
 import os
+import threading
 import re
 import subprocess
 import sys
@@ -245,6 +246,30 @@ def allowed_assumptions():
     return allowed
 
 
+_IMPORTS_BUILT = set()
+_IMPORTS_LOCK = threading.Lock()
+
+
+def ensure_imports_built(text):
+    """A cases file may import modules that are not in the dependency closure of props/Cxx.vo (trace models, state tables):
+    on a fresh tree nothing has built them yet.  Build the .vo of every development module the text requires, once per process."""
+    libs = {'Gen': 'gen', 'Model': 'model', 'Proofs': 'proofs', 'Props': 'props'}
+    targets = []
+    for m in re.finditer(r'From\s+(Gen|Model|Proofs|Props)\s+Require\s+(?:Import\s+|Export\s+)?([^.]*)\.', text):
+        for mod in m.group(2).split():
+            rel = f'{libs[m.group(1)]}/{mod}'
+            if os.path.exists(os.path.join(COQ, rel + '.v')):
+                targets.append(rel + '.vo')
+    with _IMPORTS_LOCK:
+        todo = [t for t in dict.fromkeys(targets) if t not in _IMPORTS_BUILT]
+        if not todo:
+            return True, ''
+        ok, log = coq_make(todo, timeout=1800)
+        if ok:
+            _IMPORTS_BUILT.update(todo)
+        return ok, log[-3000:]
+
+
 def coq_eval(name, text, timeout=600):
     """compile a generated cases file (coq/cases/<name>.v) and return (ok, stdout)"""
     d = os.path.join(COQ, 'cases')
@@ -252,6 +277,9 @@ def coq_eval(name, text, timeout=600):
     path = os.path.join(d, name + '.v')
     with open(path, 'w') as f:
         f.write(text)
+    built_ok, built_log = ensure_imports_built(text)
+    if not built_ok:
+        return False, built_log
     rc, out = run(f'ulimit -s unlimited 2>/dev/null; coqc -Q gen Gen -Q model Model -Q proofs Proofs -Q props Props -Q cases Cases '
                   f'-w -notation-overridden cases/{name}.v', timeout, cwd=COQ)
     for ext in ('.vo', '.vok', '.vos', '.glob'):
